@@ -606,3 +606,40 @@ def solve_observers(tier="quick", seed=0, only=None):
             seen.add(f["label"])
             uniq.append(f)
     return result(cases, uniq, f"scenarios {names} x controllers {ctrls} x 5 observer variants")
+
+
+@native("native.solve.box", ["C05"])
+def solve_box(tier="quick", seed=0, only=None):
+    """bounded: every Newton variant (incl. the Globalized line search) x controller on the boxed scenarios; all
+    evaluation points, callback iterates and the returned x must satisfy the variable bounds exactly"""
+    use_repo()
+    failures, cases = [], 0
+    S = scenarios()
+    for name in (["qp_eq_box", "qp_uncons_box", "nlp_mixed"] if tier == "quick" else list(S)):
+        mk, x0, y0 = S[name]
+        for nt in NEWTON:
+            for c in (["DistanceRatio", "Exact"] if tier == "quick" else CONTROLLERS):
+                inp = dict(scenario=name, newton=nt, controller=c)
+                if only is not None and only != inp:
+                    continue
+                problem = mk()
+                params = mk_params(newton_type=enum("NewtonType", nt), step_control_type=enum("StepControlType", c), iteration_limit=60)
+                rec = run(problem, params, x0, y0)
+                cases += 1
+                bad = box_failures(rec, problem)
+                if bad:
+                    failures.append(dict(label=f"C05:evaluation_outside_box:newton={nt}", input=inp, observed=f"{len(bad)} of {len(rec.evals)} evaluations outside the box; first: {bad[0]!r}"[:300]))
+                tp = rec.solver.problem
+                for (a, b, acc, _) in rec.callbacks:
+                    for itx in (a, b):
+                        if not (np.all(itx.x >= tp.var_lb) and np.all(itx.x <= tp.var_ub)):
+                            failures.append(dict(label=f"C05:callback_iterate_outside_box:newton={nt}", input=inp, observed=itx.x.tolist()))
+                            break
+                if rec.result is not None and not (np.all(rec.result.x >= problem.var_lb) and np.all(rec.result.x <= problem.var_ub)):
+                    failures.append(dict(label="C05:returned_x_in_box", input=inp, observed=rec.result.x.tolist()))
+    seen, uniq = set(), []
+    for f in failures:
+        if f["label"] not in seen:
+            seen.add(f["label"])
+            uniq.append(f)
+    return result(cases, uniq, "boxed scenarios x 4 Newton variants x controllers, iteration_limit=60")
